@@ -925,6 +925,9 @@ func (s *Server) RemoteHello(
 	s.lastPushData.mTrackedTimeSum = tTrackedSum
 	s.lastPush = time.Now()
 	s.clientId.Store(&req.Id)
+	// the tracer starts from the source as it is now, not as it was when the
+	// server was created (the push ticker would push that as a change)
+	s.tracer.snapshot()
 
 	s.log("RemoteHello: t%v q%d", tTrackedSum, export.QueueTick)
 	s.Mach.Add1(ssS.Handshaking, nil)
